@@ -1,6 +1,6 @@
 """Evaluates pre_dispatch expressions with joblib._utils.eval_expr and with Python's own eval (the reference).
 stdin: one JSON list of expression strings; stdout: one JSON list of [real, reference] with value encodings
-["i", int] | ["f", float.hex] | ["e", exception class name]."""
+["i", int] | ["I", bit length, md5 of hex] (huge int) | ["f", float.hex] | ["e", exception class name]."""
 import json
 import sys
 
@@ -15,6 +15,10 @@ def enc(f, s):
     if isinstance(v, bool) or not isinstance(v, (int, float)):
         return ["o", repr(v)[:60]]
     if isinstance(v, int):
+        if v.bit_length() > 4000:
+            # a huge integer (8 ** 8 ** 4 ...): compared by size and digest; str() of it would exceed Python's digit limit
+            import hashlib
+            return ["I", str(v.bit_length()), hashlib.md5(hex(v).encode()).hexdigest()]
         return ["i", str(v)]
     return ["f", v.hex()]
 
